@@ -165,7 +165,7 @@ func run(r *core.Run) {
 	runRotateTool(r)
 	r.Exhaustive = true
 	// generated histories (structured stream)
-	n := r.N(4, 50)
+	n := r.N(4, 150)
 	for i := 0; i < n; i++ {
 		f := core.Pick(rd, formats)
 		cache := -1
